@@ -18,7 +18,7 @@ theorem guards_as_extracted :
     asyncioIdleFireClosesProtocolThenTransport = true ∧ trioIdleFireClosesProtocolThenTransport = true ∧
     asyncioReaderEndStopsIdle = true ∧ trioReaderEndStopsIdle = true ∧
     h11ClosedSetsFlag = true ∧ h11ClosedClosesStream = true ∧ h11ClosedReleasesReader = true ∧ pausedBreaksWhenClosed = true ∧
-    h2StreamClosedIgnoresUnknown = true ∧ h2StreamClosedAlwaysUpdates = true ∧
+    h2StreamClosedIgnoresUnknown = true ∧ h2StreamClosedAlwaysUpdates = true ∧ h2IdleCountsBuffered = true ∧
     priorIdleBeforeData = true ∧ wrapperUpdatedSites = ["handle:True"] ∧ h11RecycleIdleUnconditional = true ∧
     trioCloseToleratesBusy = true ∧ trioCloseToleratesBroken = true ∧ trioCloseToleratesClosed = true ∧ trioCloseAlwaysCloses = true := by decide
 
